@@ -1066,7 +1066,7 @@ func (e *SpecEnv) call(n *SCall) Value {
 		return outs[0].results[0]
 	}
 	// user spec function
-	if sf, ok := x.db.Specs[name]; ok {
+	if sf := x.lookupSpec(name); sf != nil {
 		return e.applySpec(sf, n.Args)
 	}
 	specFail("unknown spec function %q", name)
